@@ -363,7 +363,12 @@ fn ev_json_frame<F: Fl>(ids: &mut Ids<F>, e: &Rc<SweepEvent<F>>, mag: f64, frame
     )
 }
 
-pub fn replay_pi<F: Fl>(path: &str, frame: i32, offset: i64, only_axis: bool) {
+/// `decoy`: 0 = the queue is empty when the step is taken; 1..4 = it already holds ONE unrelated
+/// left event (a short segment leaving the point to the upper right) located at a1 / a2 (with the
+/// operand and contour id of segment b) resp. b1 / b2 (with those of segment a) - what the queue of a
+/// real sweep looks like when another edge of the same ring starts at a T-junction. The decoy is not
+/// part of the record: `pushed` lists what the step added.
+pub fn replay_pi<F: Fl>(path: &str, frame: i32, offset: i64, only_axis: bool, decoy: u32) {
     let text = std::fs::read_to_string(path).expect("pi file");
     for line in text.lines().filter(|l| !l.trim().is_empty()) {
         let v: serde_json::Value = serde_json::from_str(line).expect("json");
@@ -383,6 +388,20 @@ pub fn replay_pi<F: Fl>(path: &str, frame: i32, offset: i64, only_axis: bool) {
         for e in [&la, &ra, &lb, &rb] {
             ids.id(e);
         }
+        let mut decoys: Vec<Rc<SweepEvent<F>>> = vec![];
+        if decoy > 0 {
+            let (at, subj, cid) = match decoy {
+                1 => (a1, flag("sb"), 2),
+                2 => (a2, flag("sb"), 2),
+                3 => (b1, flag("sa"), 1),
+                _ => (b2, flag("sa"), 1),
+            };
+            let (dl, dr) = mk_seg::<F>(at, (at.0 + 3, at.1 + 1), subj, false, cid, frame);
+            q.push(dl.clone());
+            q.push(dr.clone());
+            decoys.push(dl);
+            decoys.push(dr);
+        }
         let r = std::panic::catch_unwind(std::panic::AssertUnwindSafe(|| possible_intersection(&la, &lb, &mut q)));
         let code: i64 = match r {
             Ok(c) => c as i64,
@@ -390,6 +409,7 @@ pub fn replay_pi<F: Fl>(path: &str, frame: i32, offset: i64, only_axis: bool) {
         };
         let mut pushed: Vec<Rc<SweepEvent<F>>> = q.clone().into_sorted_vec();
         pushed.reverse();
+        pushed.retain(|e| !decoys.iter().any(|d| Rc::ptr_eq(d, e)));
         let pushed_ids: Vec<String> = pushed.iter().map(|e| ids.id(e).to_string()).collect();
         let all = ids.all.clone();
         let evs: Vec<String> = all.iter().map(|e| ev_json_frame(&mut ids, e, mag, frame)).collect();
